@@ -45,7 +45,8 @@ func (tpl replyTpl) wire4(req *dhcpv4.DHCPv4) []byte {
 	case 5:
 		rep.TransactionID[0] ^= 0xff
 	case 6:
-		rep.ClientHWAddr = net.HardwareAddr{2, 0, 0, 0, 0, 0x77}
+		// not this client's hardware address: a foreign one, a shorter one, or none at all (hlen 0)
+		rep.ClientHWAddr = []net.HardwareAddr{{2, 0, 0, 0, 0, 0x77}, {}, labHW[:3], append(append(net.HardwareAddr{}, labHW...), 0, 0)}[int(tpl.yi)%4]
 	case 7:
 		rep.OpCode = []dhcpv4.OpcodeType{dhcpv4.OpcodeBootRequest, 0, 3, 0x82, 0xff}[int(tpl.yi)%5]
 	}
